@@ -39,6 +39,10 @@ def rot_basic(h, normalize=True):
         s = h.real("s")
         h.assume(s != 0, "s != 0")
         h.eq("scale invariance A(sP) = A(P)", Exp_SO3_quat(s * P), A)
+        # also at a fixed tiny and a fixed huge scale (exactly representable factors): a change that is only visible for very short /
+        # very long quaternions then has a counterexample the float replay can reproduce
+        h.eq("scale invariance at the scale 2^-27", Exp_SO3_quat(2.0 ** -27 * P), A)
+        h.eq("scale invariance at the scale 2^27", Exp_SO3_quat(2.0 ** 27 * P), A)
         # the normalising variant composes like the quaternion product for any lengths
         h.eq("composition A(P*Q) = A(P) A(Q)", Exp_SO3_quat(quatprod(P, Qq)), A @ Exp_SO3_quat(Qq))
     else:
@@ -84,6 +88,36 @@ def derivatives(h, normalize=True, k=None):
     h.eq("T_SO3_inv_quat_P", h.D(lambda p: T_SO3_inv_quat(p, normalize=normalize), (P,), (dP,)), T_SO3_inv_quat_P(P, normalize=normalize) @ dP)
 
 
+def dtype_independence(h):
+    """whole-number quaternions / vectors typed without a decimal point (integer dtype): a routine either refuses them loudly (TypeError, as the
+    in-place normalisation of Exp_SO3_quat does) or returns what it returns for the same values as floats - never a silently truncated result"""
+    import cardillo.math as cm
+    Ps = [np.array(v) for v in ([1, 1, 0, 0], [2, -1, 3, 1], [0, 0, 0, 1], [1, 0, 0, 0], [-3, 2, 1, 2])]
+    names = ["Exp_SO3_quat", "Exp_SO3_quat_P", "T_SO3_quat", "T_SO3_inv_quat", "T_SO3_quat_P", "T_SO3_inv_quat_P"]
+    for nm in names:
+        f = getattr(cm, nm, None)
+        if f is None:
+            continue
+        for P in Ps:
+            assert P.dtype.kind == "i"
+            try:
+                got = f(P)
+            except (NotImplementedError, TypeError):
+                continue
+            h.eq(f"{nm}: integer-typed quaternion {P.tolist()} gives the float result", np.asarray(got, dtype=float), np.asarray(f(P.astype(float)), dtype=float))
+    a, b = np.array([1, -2, 3]), np.array([2, 0, -1])
+    def same(name, f, *args):
+        try:
+            got = f(*args)
+        except TypeError:
+            return
+        h.eq(name, np.asarray(got, dtype=float), np.asarray(f(*[x.astype(float) for x in args]), dtype=float))
+    for nm in ("ax2skew", "ax2skew_squared"):
+        same(f"{nm}: integer-typed vector", getattr(cm, nm), a)
+    same("cross3: integer-typed vectors", cm.cross3, a, b)
+    same("quatprod: integer-typed quaternions", cm.quatprod, Ps[1], Ps[4])
+
+
 def algebra(h):
     from cardillo.math import ax2skew, ax2skew_squared, skew2ax, cross3, ax2skew_a, skew2ax_A, LeviCivita3
     a = h.vec("a", 3)
@@ -120,5 +154,6 @@ def cases(tier, seed):
         Case("deriv/normalize", derivatives, dict(normalize=True), timeout=60),
         Case("deriv/nonormalize", derivatives, dict(normalize=False), timeout=60),
         Case("algebra", algebra, {}, timeout=30),
+        Case("dtype_independence", dtype_independence, {}, timeout=30, patch=False, sentinel=False, crosscheck=False),
     ]
     return cs
